@@ -54,7 +54,20 @@ SCRIPTS[("C04", "native_cancel_in_empty_exit_checkpoint_replaces_anyio_cancellat
 SCRIPTS[("C04", "shielded_fail_after_inside_cancelled_scope")] = ("a block opened with fail_after(shield=True) inside a cancelled scope is not interrupted", [
     (S.NEWROOT,), (S.NEWSCOPE, 1, -1, 0), (S.ENTER, 1, 1), (S.FAILAT, 1, 9, 1), (S.CANCEL, 1, 1), (S.SLEEP, 1, 2), (S.TICK, 2),
     (S.RUNSLEEPDONE, 1), (S.RUNWAKE, 1), (S.EXIT, 1, 2, 1), (S.YIELD, 1), (S.RUNDELIVER, 1), (S.RUNSTEP, 1)])
+SCRIPTS[("C05", "f19_native_cancel_after_anyio_delivery_same_cycle")] = ("known finding F19: the scope's delivery has cancelled the task's wait, a native Task.cancel() arrives before the task runs: only the scope's own CancelledError surfaces and is absorbed", [
+    (S.NEWROOT,), (S.NEWSCOPE, 1, -1, 0), (S.ENTER, 1, 1), (S.SLEEP, 1, -1), (S.EXTCANCEL, 1), (S.RUNDELIVER, 1), (S.NATIVECANCEL, 1),
+    (S.RUNWAKE, 1), (S.EXIT, 1, 1, 0), (S.YIELD, 1), (S.RUNSTEP, 1)])
+SCRIPTS[("C04", "f25_shield_raised_after_request")] = ("known finding F25: the outer scope's cancellation request is placed on the sleeping task, then another task raises the shield of the task's current scope before the task runs", [
+    (S.NEWROOT,), (S.NEWSCOPE, 1, -1, 0), (S.ENTER, 1, 1), (S.NEWSCOPE, 1, -1, 0), (S.ENTER, 1, 2), (S.SLEEP, 1, -1), (S.EXTCANCEL, 1),
+    (S.NEWROOT,), (S.SETSHIELD, 2, 2, 1), (S.RUNWAKE, 1)])
+SCRIPTS[("C01", "f24_child_natively_cancelled_before_first_step")] = ("known finding F24: child natively cancelled before its first step: its handle is never final", [
+    (S.NEWROOT,), (S.GNEW, 1), (S.GENTER, 1, 1), (S.SPAWN, 1, 1), (S.NATIVECANCEL, 2), (S.RUNSTEP, 2), (S.RUNTASKDONE, 2), (S.RUNWAKE, 1),
+    (S.GEXIT, 1, 1), (S.RUNSTEP, 1)])
 SCRIPTS[("C07", "f2_started_child_error_after_starter_cancelled")] = SCRIPTS[("C02", "f2_started_child_error_after_starter_cancelled")]
+SCRIPTS[("C07", "f20_pre_started_error_with_native_cancel_of_starter")] = ("F20: the child fails before started(), its task_done callback hands the error to the start future, the starter is natively cancelled before it runs again: start() must raise the child's error [2007], not the cancellation", [
+    (S.NEWROOT,), (S.GNEW, 1), (S.GENTER, 1, 1), (S.START, 1, 1), (S.RUNSTEP, 2), (S.HOLD, 2, 7), (S.FINISH, 2, 0),
+    (S.RUNTASKDONE, 2), (S.NATIVECANCEL, 1), (S.RUNWAKE, 1)])
+SCRIPTS[("C02", "f20_pre_started_error_with_native_cancel_of_starter")] = SCRIPTS[("C07", "f20_pre_started_error_with_native_cancel_of_starter")]
 
 def main():
     for (pid, name), (what, script) in SCRIPTS.items():
@@ -63,7 +76,8 @@ def main():
             for op in script:
                 w.do(*op)
         h = scommon.analyse(w.ops, w.outs)
-        assert not h.viol, (name, h.viol)
+        bad = {p: [m for m in ms if not scommon.known_tag(p, m)] for p, ms in h.viol.items()}
+        assert not any(bad.values()), (name, bad)
         json.dump({"what": what, "ops": w.ops}, open(f'/verif/corpus/{pid}/{name}.json', 'w'))
         print(pid, name, 'ok', len(script), sorted(h.flags)[:6])
 
